@@ -139,6 +139,7 @@ des_key_schedule(uint64_t *ks, const void *key)
         clear_var(&c, sizeof(c));
         clear_var(&d, sizeof(d));
         clear_var(&t, sizeof(t));
+        clear_scratch_gps();
 #endif
         return 0;
 }
